@@ -19,7 +19,7 @@ class Md6(Case):
     timeout_s = 900
     bounds = ('MD6(d,K,L)(M,bitlen) with rounds in {1,2,5} (and the DEFAULT round count for d in {1,7,128,159,160,256,384,512}, keyed and unkeyed, on one block): d in {1,7,160,224,256,384,512}; L in {0,1,2,3,64}; |K| in {0,1,10,64}; '
               '|M| in {0,1,383,384,385,511,512,513,1025,2048,2049} bytes everywhere and 8193 bytes (17 leaf blocks, 3 tree levels) for the hierarchical and hybrid modes; bit lengths with L\' mod 8 in 1..7 '
-              'at three lengths; message and key bytes symbolic; ceil(d/8) output bytes')
+              'at three lengths, and bit lengths that end one or two whole 512-byte blocks before the end of the buffer; message and key bytes symbolic; ceil(d/8) output bytes')
     outside = 'messages of more than 17 leaf blocks (4 tree levels); default round counts beyond one block; keys longer than 64 bytes (the library truncates them silently; not demanded)'
 
     def shapes(self, tier):
@@ -41,6 +41,11 @@ class Md6(Case):
         for r in (1, 5):
             for L in (64, 0):
                 yield dict(d=224, L=L, kl=10, r=r, n=600, bl=None)
+        # surplus bytes: a bit length that ends whole blocks before the end of the buffer (the digest depends on the first bl bits only)
+        for d, r in ((512, 2), (256, 5)):
+            for L in (64, 1, 0):
+                for n, bl in ((520, 4096), (1030, 4120), (1030, 8187), (1540, 4095)) if (tier == 'thorough' or d == 512) else ((520, 4096),):
+                    yield dict(d=d, L=L, kl=0, r=r, n=n, bl=bl)
         yield dict(d=256, L=64, kl=0, r=None, n=3, bl=None)
         for d in (1, 7, 128, 159, 160, 384, 512):
             # default round count r = 40 + d/4 (max(80, .) with a key): unkeyed and keyed, tree and sequential
